@@ -347,6 +347,136 @@ def real_proposals(ns, res, r, nscripts):
                                f'real', {'mutator': mname})
 
 
+def mutate_items(r, items, kind):
+    """The next input of a history: a leaf exchanged for another of the same
+    length (the pickled form keeps its size), a size-changing edit, or
+    nothing."""
+    import copy
+    nxt = copy.deepcopy(items)
+    paths = []
+
+    def walk(t, p):
+        for i, c in enumerate(t):
+            if isinstance(c, list):
+                walk(c, p + [i])
+            else:
+                paths.append(p + [i])
+
+    walk(nxt, [])
+    if not paths or kind == 'again':
+        return nxt
+    p = r.choice(paths)
+    t = nxt
+    for i in p[:-1]:
+        t = t[i]
+    old = t[p[-1]]
+    if kind == 'same':
+        pool = [a for a in ALPHA + ['z', 'q', '7'] if len(a) == len(old)
+                and a != old]
+        if pool:
+            t[p[-1]] = r.choice(pool)
+    else:
+        t[p[-1]] = old + r.choice(['0', 'xx', '_long_name'])
+    return nxt
+
+
+def pipeline(ns, res, r, nhist):
+    """The application as the strategies perform it: the real
+    strategy_ddmin._worker and strategy_hierarchical.Consumer.check get a
+    *history* of pickled inputs (same-size edits, size-changing edits,
+    returns to earlier inputs, the same input again) each with a
+    simplification computed for exactly that input; the candidate they hand
+    to the checker must be the model's result for the input that was sent.
+    Only the command is replaced (checker.check_exprs records and accepts)."""
+    import importlib
+    import pickle
+    import threading
+    ddmin = importlib.import_module('ddsmt.strategy_ddmin')
+    hier = importlib.import_module('ddsmt.strategy_hierarchical')
+    checker = importlib.import_module('ddsmt.checker')
+    Simp = ns.mutator_utils.Simplification
+    seen = []
+    orig = checker.check_exprs
+    checker.check_exprs = lambda exprs: (seen.append(exprs), True)[1]
+    consumer = hier.Consumer(threading.Event())
+    try:
+        for _ in range(nhist):
+            cur = rand_items(r)
+            history = []
+            for step in range(r.randint(3, 8)):
+                kind = r.choice(['same', 'same', 'same', 'size', 'back',
+                                 'again'])
+                if kind == 'back' and history:
+                    nxt = mutate_items(r, r.choice(history), 'again')
+                else:
+                    nxt = mutate_items(r, cur, kind)
+                history.append(cur)
+                cur = nxt
+                exprs = [refmodel.build(ns.Node, t) for t in cur]
+                mode = r.choice(['ids', 'ids', 'ids-delete', 'struct-leaf',
+                                 'struct-subtree', 'decls'])
+                substs, id_map, struct, fresh, info = gen_simp(
+                    ns, r, exprs, mode)
+                if mode == 'struct-subtree' and info.get('mode2'):
+                    continue
+                want, hits, _ = refmodel.substitute(exprs, id_map, struct)
+                if not hits:
+                    continue
+                if fresh:
+                    want = refmodel.insert_decls(
+                        want, [refmodel.to_nested(v) for v in fresh])
+                witness = {
+                    'history': history + [cur], 'step': step, 'kind': kind,
+                    'mode': mode, 'model': want,
+                    'id_targets': {
+                        str(p_): id_map[n.id]
+                        for n, p_ in all_nodes(exprs) if n.id in id_map},
+                    'structural': struct,
+                }
+                for entry in ('ddmin', 'hierarchical'):
+                    del seen[:]
+                    res.count('evaluations')
+                    res.count('pipeline_applications')
+                    res.count(f'pipeline_{entry}')
+                    res.add_set('pipeline_history_kinds', kind)
+                    simp = Simp(dict(substs), list(fresh))
+                    try:
+                        if entry == 'ddmin':
+                            task = ddmin.Task(step, pickle.dumps(exprs),
+                                              pickle.dumps([simp]))
+                            ddmin._worker(task)
+                        else:
+                            task = hier.Task(step, 'pipeline',
+                                             pickle.dumps(exprs),
+                                             pickle.dumps(simp), None)
+                            consumer.check(task)
+                    except Exception as e:  # noqa
+                        res.violation(
+                            f'pipeline-raised-{type(e).__name__}:{entry}',
+                            f'{entry} worker raised {e!r}', witness)
+                        return
+                    if not seen:
+                        res.violation(
+                            f'pipeline-no-candidate:{entry}',
+                            f'the {entry} worker produced no candidate for a '
+                            f'simplification that designates a position of '
+                            f'the input it was sent', witness)
+                        return
+                    got = refmodel.to_nested_list(seen[-1])
+                    if got != want:
+                        w = dict(witness)
+                        w['got'] = got
+                        res.violation(
+                            f'pipeline-result-differs:{entry}',
+                            f'the {entry} worker was sent {cur!r} (step '
+                            f'{step} of a history, {kind}) with a '
+                            f'simplification for it, but checked {got!r}; '
+                            f'model: {want!r}', w)
+                        return
+    finally:
+        checker.check_exprs = orig
+
+
 def shard(args):
     from vlib import dd
     ns = dd.load()
@@ -354,6 +484,9 @@ def shard(args):
     r = common.rng('c11', args['shard'])
     if args.get('kind') == 'real':
         real_proposals(ns, res, r, args['n'])
+        return res.to_dict()
+    if args.get('kind') == 'pipeline':
+        pipeline(ns, res, r, args['n'])
         return res.to_dict()
     for i in range(args['n']):
         items = rand_items(r)
@@ -391,6 +524,8 @@ def run(ctx):
     shards = [{'shard': i, 'n': n} for i in range(common.NCPU)]
     shards += [{'shard': 100 + i, 'kind': 'real',
                 'n': 3 if ctx.tier == 'quick' else 150} for i in range(8)]
+    shards += [{'shard': 200 + i, 'kind': 'pipeline',
+                'n': 40 if ctx.tier == 'quick' else 4000} for i in range(4)]
     results = common.run_shards('checks.c11', shards, timeout=3000)
     common.merge_shards(ctx, results)
     ctx.rule = (
@@ -402,8 +537,12 @@ def run(ctx):
         'containing their own key, swapped pairs, mixed id+structural '
         'without overlap, fresh declarations; every third case also through '
         'substitute(Node, ...); plus every proposal of all 53 real mutators '
-        'on gen_smt scripts; distinct non-trivial = distinct (input, '
-        'simplification) pairs')
+        'on gen_smt scripts; plus the application as the strategies perform '
+        'it: the real ddmin _worker and hierarchical Consumer.check are '
+        'handed histories of pickled inputs (same-size edits, size changes, '
+        'returns, repeats), each with a simplification for exactly that '
+        'input, and the candidate they check is compared with the model; '
+        'distinct non-trivial = distinct (input, simplification) pairs')
     ctx.assumptions = [
         'overlaps between id-designated and structurally designated regions '
         'and replacements containing *other* keys are not generated (the '
@@ -416,8 +555,62 @@ def run(ctx):
     for m in MODES:
         if ctx.counters.get(f'mode_{m}', 0) == 0:
             ctx.inconclusive_because(f'mode {m} never evaluated')
+    for e in ('ddmin', 'hierarchical'):
+        if ctx.counters.get(f'pipeline_{e}', 0) == 0:
+            ctx.inconclusive_because(f'{e} worker never driven')
     if ctx.counters.get('identity_checks', 0) == 0:
         ctx.inconclusive_because('no identity check performed')
+
+
+def replay_pipeline(ns, res, w):
+    """Send the recorded history again (identity simplification on the last
+    top-level entry for the earlier inputs, the recorded one for the last)."""
+    import importlib
+    import pickle
+    import threading
+    ddmin = importlib.import_module('ddsmt.strategy_ddmin')
+    hier = importlib.import_module('ddsmt.strategy_hierarchical')
+    checker = importlib.import_module('ddsmt.checker')
+    Simp = ns.mutator_utils.Simplification
+    B = lambda t: refmodel.build(ns.Node, t)  # noqa: E731
+    seen = []
+    orig = checker.check_exprs
+    checker.check_exprs = lambda exprs: (seen.append(exprs), True)[1]
+    consumer = hier.Consumer(threading.Event())
+    try:
+        for i, items in enumerate(w['history']):
+            exprs = [B(t) for t in items]
+            last = i == len(w['history']) - 1
+            if last:
+                nodes = {str(p): n for n, p in all_nodes(exprs)}
+                substs = {}
+                for p, t in w['id_targets'].items():
+                    substs[nodes[p].id] = None if t is None else B(t)
+                for k, v in w['structural']:
+                    substs[B(k)] = None if v is None else B(v)
+                want = w['model']
+            else:
+                if not exprs:
+                    continue
+                substs = {exprs[-1].id: B('marker')}
+                want = items[:-1] + ['marker']
+            for entry in ('ddmin', 'hierarchical'):
+                del seen[:]
+                simp = Simp(dict(substs), [])
+                if entry == 'ddmin':
+                    ddmin._worker(ddmin.Task(i, pickle.dumps(exprs),
+                                             pickle.dumps([simp])))
+                else:
+                    consumer.check(hier.Task(i, 'pipeline',
+                                             pickle.dumps(exprs),
+                                             pickle.dumps(simp), None))
+                got = refmodel.to_nested_list(seen[-1]) if seen else None
+                # declarations are not replayed: compare modulo them
+                if got != want and not (last and w.get('mode') == 'decls'):
+                    res.violation(f'pipeline-result-differs:{entry}',
+                                  f'sent {items!r}, checked {got!r}', {})
+    finally:
+        checker.check_exprs = orig
 
 
 def replay(data):
@@ -426,6 +619,9 @@ def replay(data):
     res = common.ShardResult()
     for c in data['cases']:
         w = c['witness']
+        if 'history' in w:
+            replay_pipeline(ns, res, w)
+            continue
         exprs = [refmodel.build(ns.Node, t) for t in w['input']]
         nodes = {str(p): n for n, p in all_nodes(exprs)}
         substs = {}
